@@ -25,6 +25,7 @@ type ysched struct {
 	locks  []lockProbe
 	parks  int
 	skips  int
+	wake   chan struct{} // optional: poked when a goroutine parks (world.step sleeps on it)
 }
 
 func newYsched(locks []lockProbe) *ysched {
@@ -51,6 +52,16 @@ func (y *ysched) yield(site string) {
 	y.parks++
 	t.site = site
 	t.parked = true
+	if ytrace {
+		println("YSCHED park", len(y.order), site, "t=", time.Now().UnixNano())
+	}
+	if y.wake != nil {
+		// the stepper may be asleep until the next datagram or deadline: somebody is waiting for it now
+		select {
+		case y.wake <- struct{}{}:
+		default:
+		}
+	}
 	<-t.resume
 	t.parked = false
 }
@@ -192,4 +203,40 @@ func mutexesOf(ptr any) []lockProbe {
 	}
 	walk(reflect.ValueOf(ptr).Elem())
 	return out
+}
+
+// drain is the scheduler for engines whose goroutines come and go on their own (the simulated network's
+// nodes): whenever the bubble is quiescent, resume one parked goroutine, chosen by the seeded PRNG, until
+// nobody is parked any more. Called from world.step before datagrams are delivered and time advances, so
+// everything that is active at one virtual instant (two handlers serving offers that arrived together, a
+// worker and a handler) interleaves statement by statement wherever no watched mutex is held.
+func (y *ysched) drain(sched *prng) (resumed int) {
+	last := -1
+	for resumed < 20000 {
+		var runnable []int
+		for i, t := range y.order {
+			if t.parked {
+				runnable = append(runnable, i)
+			}
+		}
+		if len(runnable) == 0 {
+			return resumed
+		}
+		pick := runnable[sched.intn(len(runnable))]
+		if last >= 0 && sched.chance(40) {
+			for _, r := range runnable {
+				if r == last {
+					pick = r
+				}
+			}
+		}
+		last = pick
+		if ytrace {
+			println("YSCHED resume", pick, y.order[pick].name, "at", y.order[pick].site)
+		}
+		y.order[pick].resume <- struct{}{}
+		resumed++
+		synctest.Wait()
+	}
+	return resumed
 }
